@@ -409,6 +409,13 @@ func (h *c13H) mig(body []byte, top yobj, target uint, what string, classes []st
 	}
 	h.emit(coq, r.cls != 1, cl, monOK, msg, key,
 		map[string]any{"what": what, "body": string(body), "target": target, "outcome": c13ClsName[r.cls], "err": fmt.Sprint(r.err)})
+	if cur, verOK := c13Version(top); r.cls == 2 && monOK && verOK {
+		// the real steps one by one against their footprints and documented
+		// functions (a first leg that hashes a password is left to the one run)
+		if _, isStr := c13Pass(top); !(isStr && cur < 5 && target != h.last) {
+			h.stepwise(body, top, cur, target, r, what)
+		}
+	}
 	return r
 }
 
@@ -967,6 +974,14 @@ func TestVerifC13(t *testing.T) {
 		h.emit(vfApp("C13.CDur", vfZ(d), c13Str(timeutil.Duration(d).String())), true, []string{"duration-text"}, true, "", "", map[string]any{"ns": d})
 	}
 
+	h.framePrelude(func(step uint) yobj {
+		m, err := c13Parse(c13GoldenInput(t, step))
+		if err != nil {
+			t.Fatal(err)
+		}
+		return m
+	})
+
 	// raw documents
 	for _, s := range []string{"", "~", "null", "# only a comment\n", "[]", "a: [", "7", "schema_version: x\n", "schema_version: -1\n",
 		"schema_version: 30\n", "schema_version: 29\nzz: 1\n", "schema_version: ~\n", "schema_version: 28\nschema_version: 28\n",
@@ -1075,11 +1090,15 @@ func TestVerifC13(t *testing.T) {
 	// ---- lists: several elements that differ, each treated on its own
 	h.elements(t)
 
+	// ---- full valid documents of every version (shared generator)
+	h.validDocs()
+
 	// ---- random mutations of the golden inputs
 	n := out.Scale(700, 6000)
 	for i := 0; i < n; i++ {
 		r := h.rnd.Fork(uint64(i))
-		step := uint(1 + r.Intn(int(h.last)))
+		// every historical version gets its share of the stream
+		step := uint(1 + i%int(h.last))
 		m, err := c13Parse(c13GoldenInput(t, step))
 		if err != nil {
 			t.Fatal(err)
@@ -1103,7 +1122,11 @@ func TestVerifC13(t *testing.T) {
 		if r.Chance(1, 4) {
 			mem = 2
 		}
-		h.doc(c13Marshal(m), fmt.Sprintf("golden v%d; %s", step, strings.Join(descs, "; ")), []string{"random"}, splits, mem)
+		cls := []string{"random"}
+		if v, ok := c13Version(m); ok && v < h.last {
+			cls = append(cls, fmt.Sprintf("random-v%d", v))
+		}
+		h.doc(c13Marshal(m), fmt.Sprintf("golden v%d; %s", step, strings.Join(descs, "; ")), cls, splits, mem)
 	}
 	for k, v := range h.notes {
 		out.Note(k, v)
